@@ -24,7 +24,7 @@ PROPERTY = "C18"
 LEVEL = "model_checking"
 OPTIONS = {"quick": {"max_paths": 200000, "unit_budget_s": 900}, "thorough": {"max_paths": 2000000, "unit_budget_s": 3300}}
 BOUNDS = {
-    "quick": {"regex": "all compiled patterns, pump length unbounded (fixpoint)", "scanner": "all strings of length <= 5 over code points < U+0800"},
+    "quick": {"regex": "all compiled patterns, pump length unbounded (fixpoint)", "scanner": "all strings of length <= 5 over code points < U+0800", "receive": "17 seed messages + one trailing element with symbolic tag / content; termination under a 10 s per-path watchdog"},
     "thorough": {"regex": "same", "scanner": "all strings of length <= 7 over code points < U+0800, length <= 5 over all scalar values"},
 }
 OUTSIDE = [
@@ -44,6 +44,18 @@ def units(tier):
         parts = [None] if n < 5 else list(range(8))
         for p in parts:
             us.append({"name": f"scan_n{n}" + (f"_p{p}" if p is not None else ""), "shape": {"n": n, "hi": 0x7FF, "part": p}})
+    # receive(): every seed message of every kind followed by an extra top-level element with a
+    # symbolic tag; the obligation is termination (enforced by the per-path watchdog, confirmed
+    # on the real package in a subprocess) - an element that is neither read nor skipped would
+    # make the decoder loop forever
+    from checks import common
+
+    names = sorted(common._seed_names()) if hasattr(common, "_seed_names") else None
+    from checks.c05 import _seed_lengths
+
+    for name in _seed_lengths():
+        side = "server" if name in common.REQUESTS else "client"
+        us.append({"name": f"recv_trailing_{name}", "shape": {"kind": "recv", "seed": name, "side": side, "pre": "search" if side == "client" else "fresh"}})
     if tier == "thorough":
         for n in range(1, 6):
             parts = [None] if n < 4 else list(range(8))
@@ -56,6 +68,17 @@ PART_CHARS = ["(", ")", "&|!", "=", "*", "\\", " ", None]  # first character cla
 
 
 def body(ctx, shape):
+    if shape.get("kind") == "recv":
+        from checks import common
+
+        data = common.with_trailing_element(ctx, common.seed_bytes(ctx, shape["seed"]), "x")
+        sess = common.make_session(ctx, shape["side"], shape["pre"])
+        try:
+            r = sess.receive(data)
+            ctx.observe("returned", len(r))
+        except Exception as e:  # noqa: BLE001  (which error is C05's subject; here only: it comes back)
+            ctx.observe("raised", type(e).__name__)
+        return
     F = ctx.L.filter
     n = shape["n"]
     s = ctx.str("s", n, 0, shape["hi"])
